@@ -28,3 +28,6 @@ build_race() {
 build_cover() {
   (cd "$HARNESS" && go build -cover -coverpkg=all -tags verif -o "$BUILD/slimverif.cover" .) || { echo "note: cover build failed; thorough evidence will carry no statement coverage"; rm -f "$BUILD/slimverif.cover"; }
 }
+build_asan() {
+  (cd "$HARNESS" && go build -asan -tags verif -o "$BUILD/slimverif.asan" . 2>"$BUILD/asan-build.log") || { echo "note: asan build failed; the thorough tier will run no AddressSanitizer pass"; rm -f "$BUILD/slimverif.asan"; }
+}
